@@ -365,9 +365,11 @@ class Executor:
                 self.dorder.append(h)
             self.dicts[h] = parse_dict(t[2]); return 'ok -'
         if op == 'add':
-            return 'ok ' + self.T(O[h].addSimplex(fs=self.names(t[3]), id=self.optname(t[2]), attr=self.optdict(t[4])))
+            kw = {} if t[4] == '-' else dict(attr=self.optdict(t[4]))      # no attributes: the argument is left out
+            return 'ok ' + self.T(O[h].addSimplex(fs=self.names(t[3]), id=self.optname(t[2]), **kw))
         if op == 'addb':
-            return 'ok ' + self.T(O[h].addSimplexWithBasis(self.names(t[3]), id=self.optname(t[2]), attr=self.optdict(t[4])))
+            kw = {} if t[4] == '-' else dict(attr=self.optdict(t[4]))
+            return 'ok ' + self.T(O[h].addSimplexWithBasis(self.names(t[3]), id=self.optname(t[2]), **kw))
         if op == 'addfrom':
             r = self.ren(t[3])
             return 'ok ' + self.fl(O[h].addSimplicesFrom(O[t[2]], rename=(r if r else None)))
